@@ -632,7 +632,18 @@ func (i *IRCServer) GetSessions() map[robust.Id]Session {
 	defer i.sessionsMu.RUnlock()
 	result := make(map[robust.Id]Session, len(i.sessions))
 	for id, session := range i.sessions {
-		result[id] = *session
+		// Copying the struct is not enough: the maps would still be shared
+		// with the live session and be modified under the reader's feet.
+		copied := *session
+		copied.Channels = make(map[lcChan]bool, len(session.Channels))
+		for name, value := range session.Channels {
+			copied.Channels[name] = value
+		}
+		copied.invitedTo = make(map[lcChan]bool, len(session.invitedTo))
+		for name, value := range session.invitedTo {
+			copied.invitedTo[name] = value
+		}
+		result[id] = copied
 	}
 	return result
 }
